@@ -218,6 +218,7 @@ type Heap struct {
 	comps map[string]string            // name -> sort
 	init  map[string]map[int]string    // name -> epoch -> symbol
 	log   []map[string]map[string]bool // write log stack: comp -> set of ref terms ("*" unknown)
+	all   map[string]map[string]bool   // every write of the run
 }
 
 func newHeap(ctx *Ctx) *Heap {
@@ -255,6 +256,13 @@ func (h *Heap) get(st *State, name, sort string) string {
 func (h *Heap) set(st *State, name, sort, term, ref string) {
 	h.declare(name, sort)
 	st.heap[name] = h.ctx.define(name, sort, term)
+	if h.all == nil {
+		h.all = map[string]map[string]bool{}
+	}
+	if h.all[name] == nil {
+		h.all[name] = map[string]bool{}
+	}
+	h.all[name][ref] = true
 	for _, l := range h.log {
 		m := l[name]
 		if m == nil {
@@ -327,19 +335,43 @@ func (h *Heap) merge(sts []*State) *State {
 			}
 			continue
 		}
-		t := terms[len(terms)-1]
-		for i := len(terms) - 2; i >= 0; i-- {
-			t = ite(sts[i].guard, terms[i], t)
-		}
-		out.heap[k] = h.ctx.define(k, srt, t)
+		out.heap[k] = h.ctx.define(k, srt, groupedIte(sts, terms))
 	}
 	// alloc counter
-	t := sts[len(sts)-1].alloc
-	for i := len(sts) - 2; i >= 0; i-- {
-		t = ite(sts[i].guard, sts[i].alloc, t)
+	allocs := make([]string, len(sts))
+	for i, s := range sts {
+		allocs[i] = s.alloc
 	}
-	out.alloc = h.ctx.define("alloc", sRef, t)
+	out.alloc = h.ctx.define("alloc", sRef, groupedIte(sts, allocs))
 	return out
+}
+
+// groupedIte selects terms[i] under sts[i].guard, grouping identical terms.
+func groupedIte(sts []*State, terms []string) string {
+	var order []string
+	groups := map[string][]string{}
+	for i, t := range terms {
+		if _, ok := groups[t]; !ok {
+			order = append(order, t)
+		}
+		groups[t] = append(groups[t], sts[i].guard)
+	}
+	// the largest group becomes the default branch
+	def := order[0]
+	for _, t := range order {
+		if len(groups[t]) > len(groups[def]) {
+			def = t
+		}
+	}
+	res := def
+	for i := len(order) - 1; i >= 0; i-- {
+		t := order[i]
+		if t == def {
+			continue
+		}
+		res = ite(or(groups[t]...), t, res)
+	}
+	return res
 }
 
 // iteValue merges two symbolic values of the same shape.
